@@ -95,7 +95,7 @@ def run(ctx):
     small = [x for x in recs if len(x["imp"]) <= 3]
     acyc = [x for x in big if not x["cyclic"]]
     cyc = [x for x in big if x["cyclic"]]
-    recs = acyc[: (60 if quick else 500)] + cyc[: (15 if quick else 150)] + rnd.sample(small, min(len(small), 25 if quick else 300))
+    recs = acyc[: (60 if quick else 200)] + cyc[: (15 if quick else 50)] + rnd.sample(small, min(len(small), 25 if quick else 100))
     env = erg_env()
     base = scratch("c19")
     seeds = [1, 2, 3] if quick else [1, 2, 3, 4, 5, 6, 7, 8]
